@@ -1463,7 +1463,9 @@ impl<'a> Exec<'a> {
                     }
                     let ptr = self.world.fds[self.fd].take();
                     let b = ptr.map(|p| SendBox(unsafe { Box::from_raw(p) }));
-                    drop_somewhere(b, on_thread)
+                    // (The signal handle, if any, is a descriptor too.)
+                    let sig = self.world.take_signals().map(SendBox);
+                    drop_somewhere((b, sig), on_thread)
                 }
                 Obj::Op(i) => {
                     if self.ops[i].fut.is_some() {
